@@ -155,6 +155,14 @@ struct Slot {
 pub struct Gates {
     st: Mutex<HashMap<(String, &'static str), Slot>>,
     cv: Condvar,
+    /// thread name -> whether the thread held the database lock when it reached a gate point whose
+    /// meaning depends on that (`current_missing`)
+    holds: Mutex<HashMap<String, bool>>,
+}
+
+thread_local! {
+    /// this thread's current `DB::open` has been granted the lock file
+    static HOLDS_LOCK: std::cell::Cell<bool> = std::cell::Cell::new(false);
 }
 
 impl Gates {
@@ -162,6 +170,7 @@ impl Gates {
         Arc::new(Gates {
             st: Mutex::new(HashMap::new()),
             cv: Condvar::new(),
+            holds: Mutex::new(HashMap::new()),
         })
     }
 
@@ -282,6 +291,11 @@ impl FileSystem for GateFs {
         // an opener that has just learnt that there is no database yet (CURRENT missing): what it
         // does next (initialise a new database) needs the lock
         if r.is_err() && path.file_name().map(|n| n == "CURRENT").unwrap_or(false) {
+            // (whether it holds the lock at this moment is reported truthfully: an opener may
+            // look for CURRENT before it asks for the lock as long as it only LOOKS)
+            if let Some(n) = std::thread::current().name() {
+                self.gates.holds.lock().insert(n.to_string(), HOLDS_LOCK.with(|h| h.get()));
+            }
             self.gates.pass("current_missing");
         }
         r
@@ -324,7 +338,9 @@ impl FileSystem for GateFs {
     }
     fn lock_file(&self, path: &Path) -> std::io::Result<FileLock> {
         self.gates.pass("lock_file");
-        self.inner.lock_file(path)
+        let r = self.inner.lock_file(path);
+        HOLDS_LOCK.with(|h| h.set(r.is_ok()));
+        r
     }
 }
 
@@ -426,6 +442,7 @@ impl Ctx {
         self.log
             .emit("Call", json!({"c": c, "t": t, "op": "open", "h": h, "k": 0}));
         self.dog.enter(c, t, "open", format!("open handle {}", h));
+        HOLDS_LOCK.with(|x| x.set(false));
         let opts = self.options();
         let r = match std::panic::catch_unwind(std::panic::AssertUnwindSafe(|| DB::open(opts))) {
             Ok(r) => r,
@@ -1004,6 +1021,13 @@ impl Run {
                 })
                 .unwrap();
             if ctx.gates.wait_parked(name, done, Duration::from_secs(10)) {
+                // parked right after CURRENT was found missing: "pre" (= the call has not got
+                // the lock yet) is what the filesystem wrapper saw, not an assumption
+                let pre = if point == "current_missing" {
+                    !ctx.gates.holds.lock().get(name).cloned().unwrap_or(false)
+                } else {
+                    pre
+                };
                 ctx.log
                     .emit("Gate", json!({"c": c, "held": true, "pre": pre, "point": point}));
                 self.parked.insert(name.to_string(), (c, pre, point));
